@@ -1,6 +1,7 @@
 package scen
 
 import (
+	"errors"
 	"fmt"
 	"strings"
 	"time"
@@ -84,6 +85,18 @@ func c09Body(r *Run) {
 			return []*message.Message{o}, nil
 		})
 	}
+	// in some runs one publisher decorator (not the one that is applied first, i.e. not the last of the list) fails once
+	// when the first late handler is started; RunHandlers reports it and is simply called again
+	built := map[int]int{}
+	failDec := -1
+	if nLate > 0 && nPubDec > 1 && t.Chance(1, 3) {
+		failDec = t.Int(nPubDec - 1)
+	}
+	// in some runs an early handler is stopped while the late handlers are being started
+	stopEarly := -1
+	if nLate > 0 && t.Chance(1, 3) {
+		stopEarly = t.Int(nH)
+	}
 	var routerTags []string
 	var wantPub, wantSub []string
 	var desc []string
@@ -94,9 +107,19 @@ func c09Body(r *Run) {
 		for j := 0; j < n; j++ {
 			tag := fmt.Sprintf("p%d", i+j)
 			wantPub = append(wantPub, tag)
-			decs = append(decs, message.MessageTransformPublisherDecorator(func(m *message.Message) {
+			real := message.MessageTransformPublisherDecorator(func(m *message.Message) {
 				m.Metadata.Set("pubtrace", strings.TrimPrefix(m.Metadata.Get("pubtrace")+","+tag, ","))
-			}))
+			})
+			idx := i + j
+			decs = append(decs, func(pub message.Publisher) (message.Publisher, error) {
+				built[idx]++
+				if idx == failDec && built[idx] == nH+1 {
+					// a transient failure while the first late handler is being started
+					r.Fault("decorator-constructor-error")
+					return nil, errors.New("transient decorator failure")
+				}
+				return real(pub)
+			})
 		}
 		rig.Router.AddPublisherDecorators(decs...)
 		i += n
@@ -142,7 +165,7 @@ func c09Body(r *Run) {
 			addHandler(h)
 		}
 	}
-	r.Describe("registration program (in order): %s; publisher decorators %v; subscriber decorators %v; late handlers %d with %d registrations", strings.Join(desc, " "), wantPub, wantSub, nLate, len(lateRegs))
+	r.Describe("registration program (in order): %s; publisher decorators %v; subscriber decorators %v; late handlers %d with %d registrations; failing decorator index %d; early handler stopped meanwhile %d", strings.Join(desc, " "), wantPub, wantSub, nLate, len(lateRegs), failDec, stopEarly)
 
 	r.Sim.AtEnd(func() {
 		for _, h := range hs {
@@ -157,11 +180,15 @@ func c09Body(r *Run) {
 			for i := len(h.want) - 1; i >= 0; i-- {
 				want = append(want, "leave:"+h.want[i])
 			}
-			if len(h.sub.Deliveries) == 0 {
+			stopped := stopEarly >= 0 && h == hs[stopEarly]
+			if len(h.sub.Deliveries) == 0 && !stopped {
 				r.Fail("C09.R3", "a started handler received no message", "%s", h.name)
 			}
 			for _, d := range h.sub.Deliveries {
 				got := h.traces[d.Msg]
+				if stopped && len(got) == 0 {
+					continue // emitted while the handler was being stopped: never handled
+				}
 				if strings.Join(got, " ") != strings.Join(want, " ") {
 					sig := "middlewares of a handler are not nested in registration order"
 					for _, g := range got {
@@ -191,7 +218,7 @@ func c09Body(r *Run) {
 					}
 				}
 			}
-			if len(h.pub.Calls) != len(h.sub.Deliveries) {
+			if len(h.pub.Calls) != len(h.sub.Deliveries) && !stopped {
 				r.Fail("C09.R3", "not every handled message produced a publish call", "%s: %d deliveries, %d publish calls", h.name, len(h.sub.Deliveries), len(h.pub.Calls))
 			}
 		}
@@ -207,6 +234,15 @@ func c09Body(r *Run) {
 				tag := fmt.Sprintf("mw%d", lr[1])
 				h.h.AddMiddleware(mkMW(tag))
 				h.want = append(h.want, tag)
+			}
+		}
+		if i == nH && stopEarly >= 0 {
+			r.Fault("handler-stop-during-startup-of-another")
+			go hs[stopEarly].h.Stop()
+		}
+		if i == nH && failDec >= 0 {
+			if err := rig.Router.RunHandlers(rig.ctx); err == nil {
+				r.Fail("C09.R3", "RunHandlers swallowed a decorator constructor's error", "")
 			}
 		}
 		var second chan struct{}
